@@ -20,7 +20,8 @@ func init() {
 			"(R) the session cookie is dropped from the forwarded request (string-equality truth table), other client cookies are kept, the jar consulted and the jar stored into are the caller's own session's, the cookie URL is the request's own. " +
 			"Not decided: cookiejar matching rules, LRU eviction order, expiry arithmetic. " +
 			"The shim's open endpoint restores r.URL from the body before it delegates to the handler wrapped by the session wrapper, so path-scoped cookies are looked up for the websocket's real URL. " +
-			"The session jar is updated before the header is released to the wrapped writer; the shim dials with DefaultDialer or a jar-less dialer.",
+			"The session jar is updated before the header is released to the wrapped writer; the shim dials with DefaultDialer or a jar-less dialer. " +
+			"(B) no route of the agent's handler chain bypasses the session handler; (N) the session cache is constructed from the configured cookie name, lifetime, size and test override.",
 		Assumptions: []string{"net/http/cookiejar implements RFC 6265 matching", "groupcache lru evicts least-recently-used entries"},
 		Run:         runC10,
 	})
@@ -38,6 +39,8 @@ func runC10(c *Ctx) {
 
 	// ---- C10.S
 	c.Rule("C10.S", "backend Set-Cookie never passes the session writer", 5)
+	c.Rule("C10.B", "no route around the session handler", 1)
+	ruleOnlyWrappedBy(c, p, "C10.B")
 	if wh != nil {
 		isDel := func(i ssa.Instruction) bool {
 			if !IsCall(i, "(net/http.Header).Del") {
